@@ -636,7 +636,12 @@ class MailboxSet(MailboxSetInterface[MailboxData]):
                 mailbox_id = ObjectId(uidl.global_uid)
             mbx = MailboxData(mailbox_id, maildir, path)
             self._cache[name] = mbx
-        return await mbx.reset()
+        try:
+            return await mbx.reset()
+        except FileNotFoundError as exc:
+            # another session or process is deleting the folder right now
+            self._cache.pop(name, None)
+            raise KeyError(name) from exc
 
     async def add_mailbox(self, name: str) -> ObjectId:
         self._check_name(name, ValueError)
